@@ -29,6 +29,21 @@ impl C13 {
         if let Some(o) = lib(ctx, "map_arrow_witness", "pending", &input, || map_arrow_witness(&fun, &lx)) {
             ctx.check(o.is_none(), "map_arrow_witness/refuses-pending-unifications/value/pending", || json!({"input": input(), "observed": "Some"}));
         }
+        // a failed attempt to quotient (label-conflicting pairs) leaves the pairs pending: still refused afterwards
+        if pl.q.iter().any(|&(a, b)| pl.w[a] != pl.w[b]) {
+            let mut after = lx.clone();
+            if let Some(res) = lib(ctx, "quotient", "pending", &input, || after.quotient().is_ok()) {
+                if !res {
+                    ctx.count("law:refused-after-a-failed-quotient");
+                    if let Some(o) = lib(ctx, "try_define_map_arrow", "after_failed_quotient", &input, || try_define_map_arrow(&fun, &after)) {
+                        ctx.check(o.is_none(), "try_define_map_arrow/refuses-pending-unifications/value/after_failed_quotient", || json!({"input": input(), "observed": "Some"}));
+                    }
+                    if let Some(o) = lib(ctx, "map_arrow_witness", "after_failed_quotient", &input, || map_arrow_witness(&fun, &after)) {
+                        ctx.check(o.is_none(), "map_arrow_witness/refuses-pending-unifications/value/after_failed_quotient", || json!({"input": input(), "observed": "Some"}));
+                    }
+                }
+            }
+        }
         ctx.sample("refusal", || input());
     }
 
@@ -218,6 +233,7 @@ impl Monitor for C13 {
             ("law:native-equals-strict-path", 200),
             ("law:native-identity-functor", 200),
             ("class:refusal_with_label_conflicting_pairs", 30),
+            ("law:refused-after-a-failed-quotient", 30),
             ("events:witness_segments_checked", 500),
         ]
     }
